@@ -3,6 +3,7 @@ import Verif.Lemmas.C06Writers
 import Verif.Driver.ExecEnv
 import Verif.Lemmas.C06Regexp
 import Verif.Lemmas.JsonTree
+import Verif.Lemmas.JsonObjTree
 /-! # C06 — Parser stages expose exactly the fields of a line and never drop it
 
 Theorems over `LogQL.Stage.apply` for json / logfmt / regexp / pattern / unpack (tied to the code by the C06 correspondence).  The JSON and logfmt *readers* are reached through `Env` (`jsonObject`, `jsonExpr`, `logfmt`): statements are relative to what the reader returns for the line; the executable readers `Verif/Env/Json.lean`, `Logfmt.lean`, `JsonExpr.lean` are compared with go-faster/jx and go-logfmt by the correspondence.  The pattern stage is proved at byte level with no environment. -/
@@ -260,6 +261,27 @@ theorem C06_json_paths_expose_denotation (ts : Int) (seen : Seen) (a : LogQL.Acc
     rw [hl]; exact JsonTreeL.extract_writeT _ t hw
   simp only [Stage.apply, he, Bool.not_false, if_true, hx]
   rfl
+
+
+/-- the object reader on the text of any object tree: its members in order, scalars as their values,
+arrays and objects as their text (with the int64 check on, every integer of the tree must be in range:
+the reader validates nested ones too) -/
+theorem C06_json_object_reader_on_trees (checkInt : Bool) (fs : List (List Nat × JsonTree.JT))
+    (h : JsonTree.wfFields fs = true) (hint : checkInt = true → JsonObjTree.intsOKFields fs = true) :
+    Json.readObject checkInt (JsonTree.writeT (.obj fs)) = (fs.map (fun kv => (kv.1, JsonObjTree.toJVal kv.2)), false) :=
+  JsonObjTree.readObject_writeT checkInt fs h hint
+
+/-- **C06 (json without parameters, any object)**: every non-null member is exposed under its sanitised
+key — scalars with their value, nested arrays and objects with their text — later duplicates winning -/
+theorem C06_json_stage_exposes_tree_members (ts : Int) (seen : Seen) (a : LogQL.Acc)
+    (fs : List (List Nat × JsonTree.JT)) (hw : JsonTree.wfFields fs = true) (hl : a.line = JsonTree.writeT (.obj fs)) :
+    (Stage.apply ExecEnv.env ts (Stage.json [] []) seen a).fst =
+      some { a with labels := (setAll a.labels
+        ((fs.map (fun kv => (kv.1, JsonObjTree.toJVal kv.2))).filterMap
+          fun (k, v) => (jvalText v).map (fun t => (KeyToLabel.run k, t)))) } := by
+  apply json_all_fields
+  show Json.readObject false a.line = _
+  rw [hl]; exact JsonObjTree.readObject_writeT_nocheck fs hw
 
 
 end LogQL.C06
